@@ -529,11 +529,11 @@ def replay(ctx, doc):
         from props import c07_faults
 
         return c07_faults.replay(doc["failure"]["input"])
-    if doc["failure"]["input"].get("kind") == "wall-clock-sequence":
+    if doc["failure"]["input"].get("kind") in ("wall-clock-sequence", "server-wall-clock-sequence"):
         from props import c07_clock
 
         return c07_clock.replay(doc["failure"]["input"])
-    if doc["failure"]["input"].get("kind") == "wire-listing":
+    if doc["failure"]["input"].get("kind") in ("wire-listing", "wire-special-files", "wire-big-directory"):
         from props import c07_wire
 
         return c07_wire.replay(doc["failure"]["input"])
